@@ -26,6 +26,7 @@ func runC15(c *Ctx) {
 	c15R3(c, ms)
 	indexResolution(c, "R4")
 	equalityAgreement(c, "R6")
+	c15NestedCalls(c)
 	c.shared("R7", "C02/R4", "a method invoked on $ acts on the array inside the document: for an array root the pattern rules see each element's own cell, not a copy of its value (a copy carries a private slice header)", keyHas("array-root-per-element"), c02R4)
 	c.shared("R5", "C09/R3", "push stores a copy of its argument made by copyValue: the stored element is a value of the same kind in a cell of its own (a null that shares the caller's cell changes when the caller's variable does)", keyHas("copy Value", "copy-on-insert ExprCall.Args"), c09R3)
 }
@@ -539,4 +540,50 @@ func equalityAgreement(c *Ctx, rule string) {
 	if nEq < 1 {
 		c.undecided(rule, "instance-floor", "", "no equality use of Compare found (== is known to use it)")
 	}
+}
+
+// contains compares every element; the receiver of a call is evaluated before its arguments
+func c15NestedCalls(c *Ctx) {
+	p := c.P
+	c.note("R8 every-element-compared / receiver-before-arguments: in contains, the loop over the elements cannot go on to the next element without having called Equals for the current one (no kind pre-filter: == coerces across kinds); in the call arm of evalExpr the callee expression — which yields the method bound to its receiver — is evaluated before the argument list, so an argument that changes the array through which the receiver is addressed (m[-1].push(m.pop())) cannot redirect the call.")
+	for _, m := range nativeMethods(p) {
+		if m.Proto != "array" || m.Name != "contains" || m.Fn == nil {
+			continue
+		}
+		n := 0
+		for _, call := range callsIn(m.Fn) {
+			if !staticCalleeIs(call, "(*lang.Value).Equals") {
+				continue
+			}
+			for _, l := range rangeLoops(m.Fn, func(v ssa.Value) bool { return strings.HasSuffix(p.Render(v), ".Array") }) {
+				if !l.Body.Dominates(call.Block()) {
+					continue
+				}
+				n++
+				c.check(!canSkip(l.Body, call.Block(), l.Header), "R8", "every-element-compared", p.InstrPos(call), "Equals is called for every element until one matches", "the loop over the elements can move on without comparing the current element: contains no longer agrees with == applied to each element in order")
+			}
+		}
+		if n == 0 {
+			c.undecided("R8", "every-element-compared", p.Pos(m.Fn.Pos()), "no Equals call inside a loop over the receiver's elements")
+		}
+	}
+	ee := p.LangFunc("(*Evaluator).evalExpr")
+	if ee == nil {
+		c.undecided("R8", "evalExpr", "", "anchor not found")
+		return
+	}
+	var fnEval, argEval ssa.CallInstruction
+	for _, call := range callsIn(ee) {
+		switch {
+		case staticCalleeIs(call, "(*lang.Evaluator).evalExpr") && argDesc(call) == "ExprCall.Func":
+			fnEval = call
+		case staticCalleeIs(call, "(*lang.Evaluator).evalExprList") && argDesc(call) == "ExprCall.Args":
+			argEval = call
+		}
+	}
+	if fnEval == nil || argEval == nil {
+		c.undecided("R8", "receiver-before-arguments", p.Pos(ee.Pos()), "the evaluation of ExprCall.Func / ExprCall.Args was not found in evalExpr")
+		return
+	}
+	c.check(dominatesInstr(fnEval, argEval), "R8", "receiver-before-arguments", p.InstrPos(argEval), "callee (and receiver) first, then the arguments", "the argument list of a call is evaluated before the callee expression: an argument that mutates the array through which the receiver is addressed makes the method act on another array")
 }
